@@ -84,7 +84,12 @@ def one_case(args):
                     raise HarnessError(f'preparation run failed for {case}')
                 ok.append(value_of(case, 1))
         WORLD.reset(epoch=2)
-        inner = LocalStorage(d)
+        # 'fsspec': the failing save goes through the FsspecStorage reference provider (fsspec's local
+        # file system, which writes in place); preparation and observation stay on LocalStorage (same layout)
+        fsspec_inner = len(args) > 5 and args[5] == 'fsspec'
+        if fsspec_inner:
+            from ..storages import LocalFsspecStorage
+        inner = LocalFsspecStorage(d) if fsspec_inner else LocalStorage(d)
         fs = FaultyStorage(inner, at=(at if kind == 'op' else None), mode=mode or 'raise',
                            defer_open=(at if kind == 'defer' else None))
         lab = labtech.Lab(storage=fs, runner_backend='serial', notebook=False, continue_on_failure=True)
@@ -169,6 +174,7 @@ def one_case(args):
                     viols.append(('reported-cached-but-run-raised', f'[same Lab object] run_tasks raised {type(e).__name__}: {e}'))
         if fired and outcome == ('return', True) and kind == 'natural':
             viols.append(('unserialisable-reported-ok', 'the result cannot be serialised but the task was reported as successful'))
+        where = ('[save through FsspecStorage over the local file system] ' + where) if fsspec_inner else where
         phase = 'over-entry-of-other-cache-class' if foreign else 'overwrite' if overwrite else 'first-save'
         return {'kind': kind, 'fired': fired, 'reported_failed': reported_failed, 'reported_cached': reported_cached,
                 'viols': [(f'{k}:{phase}', f'{case} {phase} {where}: {m}') for k, m in viols]}
@@ -211,6 +217,15 @@ def run(tier: str, seed: int) -> Result:
             if ow and case in ('pickle-small', 'json-small'):
                 for at in range(1, b['ops'] + 1):
                     work.append((case, ow, 'op', at, 'raise', 'same-lab'))
+            if case in ('pickle-small', 'pickle-multi'):
+                bs = one_case((case, ow, 'baseline', None, None, 'fsspec'))
+                if bs['outcome'] == ('return', True):
+                    for at in range(1, bs['ops'] + 1):
+                        work.append((case, ow, 'op', at, 'raise', 'fsspec'))
+                    for at in range(1, bs['opens'] + 1):
+                        work.append((case, ow, 'defer', at, None, 'fsspec'))
+                else:
+                    foreign_skipped.append(f'{case} via FsspecStorage: {bs["outcome"]}')
             if not ow and case in ('pickle-small', 'pickle-multi'):
                 # the save goes over a complete entry that another cache class wrote under the same key
                 bf = one_case((case, False, 'baseline', None, None, 'foreign'))
@@ -241,7 +256,7 @@ def run(tier: str, seed: int) -> Result:
     cov = {
         'evaluations': n,
         'distinct_nontrivial': fired,
-        'rule': ('one evaluation = one real serial-backend run with exactly one injected fault (storage operation #j: open / write call / close; a handle whose data is lost at close; the same single faults with ONE Lab object performing and then judging the failed overwrite; or the '
+        'rule': ('one evaluation = one real serial-backend run with exactly one injected fault (storage operation #j: open / write call / close; a handle whose data is lost at close; the same single faults with ONE Lab object performing and then judging the failed overwrite; the storage-operation faults also with the save going through FsspecStorage over the local file system of fsspec; or the '
                  'k-th executed line of cache.py/storage.py/serialization.py inside BaseCache.save, raising an OSError or a non-Exception BaseException) or a result that cannot be serialised (fails before / after one / '
                  'after many frames); x {PickleCache, JSON cache, a cache format with two result files} x {small, multi-frame, one large out-of-frame bytes object} x {first save, overwrite via bust_cache, save over a complete entry that another cache class with the same key prefix wrote - judged by observers of either class}; followed by the recovery '
                  'oracle on a fresh Lab (is_cached, cached_tasks, run_tasks); distinct_nontrivial = injections that actually fired'),
